@@ -43,12 +43,16 @@ type c07Var struct {
 
 var c07Vars = map[string]c07Var{
 	"i3": {"int", 3}, "z": {"int", 0}, "i8": {"int", int8(-5)}, "u8": {"int", uint8(200)}, "big": {"int", int64(1) << 40},
+	"i16": {"int", int16(-300)}, "i32": {"int", int32(70000)}, "i64": {"int", int64(7)}, "u": {"int", uint(7)},
+	"u16": {"int", uint16(60000)}, "u32": {"int", uint32(3)}, "u64": {"int", uint64(7)},
 	"f": {"float", 2.5}, "fz": {"float", 0.0}, "f32": {"fnoeq", float32(0.5)},
 	"s": {"str", "ab"}, "e": {"str", ""}, "t": {"bool", true}, "fl": {"bool", false},
 	"il": {"ilist", []int{1, 2, 3}}, "sl": {"slist", []string{"a", "b", ""}}, "el": {"ilist", []int{}},
 }
 
-var c07VarNames = []string{"i3", "z", "i8", "u8", "big", "f", "fz", "f32", "s", "e", "t", "fl", "il", "sl", "el"}
+var c07IntVars = []string{"i3", "z", "i8", "u8", "big", "i16", "i32", "i64", "u", "u16", "u32", "u64"}
+
+var c07VarNames = []string{"i3", "z", "i8", "u8", "big", "i16", "i32", "i64", "u", "u16", "u32", "u64", "f", "fz", "f32", "s", "e", "t", "fl", "il", "sl", "el"}
 
 func c07Context() pongo2.Context {
 	ctx := pongo2.Context{}
@@ -214,6 +218,18 @@ func c07Eval(e *Ex) (c07V, error) {
 		case int8:
 			return c07V{T: "int", I: int64(x)}, nil
 		case uint8:
+			return c07V{T: "int", I: int64(x)}, nil
+		case int16:
+			return c07V{T: "int", I: int64(x)}, nil
+		case int32:
+			return c07V{T: "int", I: int64(x)}, nil
+		case uint:
+			return c07V{T: "int", I: int64(x)}, nil
+		case uint16:
+			return c07V{T: "int", I: int64(x)}, nil
+		case uint32:
+			return c07V{T: "int", I: int64(x)}, nil
+		case uint64:
 			return c07V{T: "int", I: int64(x)}, nil
 		case int64:
 			return c07V{T: "int", I: x}, nil
@@ -646,9 +662,13 @@ func genLeaf(t *rapid.T, want string) *Ex {
 	switch want {
 	case "int":
 		if drawBool(t, "lit") {
-			return &Ex{Op: "lit", T: "int", Lit: strconv.Itoa(drawInt(t, 0, 20, "n"))}
+			lit := strconv.Itoa(drawInt(t, 0, 20, "n"))
+			if drawInt(t, 0, 7, "lead0") == 0 {
+				lit = pick(t, "zeros", []string{"0", "00"}) + lit // integer literals are decimal, leading zeros or not
+			}
+			return &Ex{Op: "lit", T: "int", Lit: lit}
 		}
-		return &Ex{Op: "var", T: "int", Name: pick(t, "iv", []string{"i3", "z", "i8", "u8", "big"})}
+		return &Ex{Op: "var", T: "int", Name: pick(t, "iv", c07IntVars)}
 	case "float":
 		if drawBool(t, "lit") {
 			return &Ex{Op: "lit", T: "float", Lit: strconv.Itoa(drawInt(t, 0, 9, "ip")) + "." + pick(t, "fp", []string{"0", "5", "25", "75", "125"})}
@@ -776,7 +796,7 @@ func genEx(t *rapid.T, want string, depth int) *Ex {
 
 var _ = register(&propSpec{
 	ID:   "C07.expr",
-	Rule: "well-typed expression trees (int/float/string/bool, context variables of several int widths and float32, list membership) of depth <= 7, printed with minimal parentheses per the stated precedence/associativity, random operator spellings (and/&&, or/||, !=/<>, not/!) and spacing, rendered as {{ e }} and {% if e %}; compared with an independent evaluator of the tree (wrap-around int64, truncated division, float64 when a float is involved, concatenation, short-circuit, division/modulo by zero = execution error). Non-trivial: operators from >= 2 precedence levels or a same-level chain of >= 3 operands AND at least one operator printed without parentheses; distinct by printed source.",
+	Rule: "well-typed expression trees (int/float/string/bool, context variables of every Go int/uint width and float32, integer literals with and without leading zeros (decimal either way), list membership) of depth <= 7, printed with minimal parentheses per the stated precedence/associativity, random operator spellings (and/&&, or/||, !=/<>, not/!) and spacing, rendered as {{ e }} and {% if e %}; compared with an independent evaluator of the tree (wrap-around int64, truncated division, float64 when a float is involved, concatenation, short-circuit, division/modulo by zero = execution error). Non-trivial: operators from >= 2 precedence levels or a same-level chain of >= 3 operands AND at least one operator printed without parentheses; distinct by printed source.",
 	Gen: func(t *rapid.T) any {
 		root := pick(t, "rootT", []string{"int", "float", "str", "bool", "bool", "truth"})
 		e := genEx(t, root, drawInt(t, 1, 7, "depth"))
